@@ -192,6 +192,8 @@ def pretty(v):
 
 def run_driver(lines, timeout=3600):
     """Feed lines to the compiled model driver, return its output lines."""
+    if not lines:
+        return []
     if not os.path.exists(DRIVER):
         raise RuntimeError('model driver not built: ' + DRIVER)
     data = ('\n'.join(lines) + '\n').encode('ascii')
